@@ -68,7 +68,7 @@ def enforce_shard(items, p, b):
 
 def schemas():
     big = st.tuples(st.integers(1, 70), st.sampled_from([-1, 0, 1, 3])).map(lambda kd: ["int", max(2, (1 << kd[0]) + kd[1])])
-    leaf = st.one_of(st.just(["bool"]), st.integers(2, 20).map(lambda m: ["int", m]), st.integers(2, 20).map(lambda m: ["int", m]), big)
+    leaf = st.one_of(st.just(["bool"]), st.integers(1, 20).map(lambda m: ["int", m]), st.integers(2, 20).map(lambda m: ["int", m]), big)
     return st.recursive(leaf, lambda ch: st.one_of(
         st.lists(ch, min_size=1, max_size=3).map(lambda l: ["list", l]),
         st.tuples(ch, st.integers(1, 3)).map(lambda t: ["rep", t[0], t[1]])), max_leaves=6)
@@ -117,7 +117,7 @@ def draw_value(draw, s):
     if s[0] == "bool":
         return draw(st.integers(0, 1))
     if s[0] == "int":
-        return draw(st.one_of(st.integers(0, s[1] - 1), st.sampled_from([0, s[1] - 1, (s[1] - 1) // 2 + 1])))
+        return draw(st.one_of(st.integers(0, s[1] - 1), st.sampled_from([0, s[1] - 1, min(s[1] - 1, (s[1] - 1) // 2 + 1)])))
     if s[0] == "list":
         return [draw_value(draw, x) for x in s[1]]
     return [draw_value(draw, s[1]) for _ in range(s[2])]
